@@ -39,6 +39,8 @@ HISTORIES = [
 
 
 def read_pid(path):
+    if not path or path.startswith("None"):
+        return None
     try:
         with open(path) as f:
             return int(f.read().strip() or 0)
@@ -46,14 +48,15 @@ def read_pid(path):
         return None
 
 
-def run_history(hist, bind, stopsig, wk="sync"):
+def run_history(hist, bind, stopsig, wk="sync", nopid=False):
+    """nopid: no pid file is configured; masters are then found through the process table"""
     early = any(op == "USR2_EARLY" for op, _ in hist)
     daemon = any(op == "WINCH" for op, _ in hist)
     flag = os.path.join(rp._scratch(), "broken_%d_%d" % (os.getpid(), threading.get_ident()))
     env = {"VERIF_BROKEN_FLAG": flag}
     if early:
         env["VERIF_BOOT_SLEEP"] = "1.5"
-    s = rp.Server(wk, workers=1, bind=bind, pidfile=True, daemon=daemon,
+    s = rp.Server(wk, workers=1, bind=bind, pidfile=not nopid, daemon=daemon,
                   args=["--graceful-timeout", "3"] + (["--preload"] if early else []), env=env, name="c14")
     masters = {}           # name -> pid
     stop = threading.Event()
@@ -113,12 +116,21 @@ def run_history(hist, bind, stopsig, wk="sync"):
                 pts = [threading.Thread(target=probe) for _ in range(6)]
                 [t.start() for t in pts]
                 [t.join() for t in pts]
-            return {"e": "chk", "alive": al, "base": name_of(read_pid(s.pidfile)), "two": name_of(read_pid(s.pidfile + ".2")),
+            return {"e": "chk", "alive": al, "base": name_of(read_pid(s.pidfile)), "two": name_of(read_pid(str(s.pidfile) + ".2")),
                     "sock": bool(s.sockpath and os.path.exists(s.sockpath)), "refused": refused, "nmasters": len(al),
                     "serving": sorted(served)}
         ev = [checkpoint()]
+        def new_master_by_tree(parent, before):
+            # a child of `parent` that is not one of its workers (workers leave a booted.<pid> marker)
+            for c in rp.children_of(parent):
+                if c not in before and c not in s.booted() and c not in masters.values():
+                    return c
+            return None
+
         def find_new(name):
             # the master started by the last USR2 records itself under ".2" (or, once promoted, under the base name)
+            if nopid:
+                return False
             for path in (s.pidfile + ".2", s.pidfile):
                 p = read_pid(path)
                 if p and p not in masters.values() and rp.proc_state(p) not in (None, "Z"):
@@ -171,6 +183,14 @@ def run_history(hist, bind, stopsig, wk="sync"):
                 newname = {"a": "b", "b": "c"}.get(m)
                 deadline = time.time() + 4
                 while time.time() < deadline:
+                    if nopid:
+                        p = new_master_by_tree(masters[m], before) if alive(m) else None
+                        if p and len(rp.children_of(p)) >= 1:        # it has started its own worker
+                            if newname and not alive(newname):
+                                masters[newname] = p
+                            break
+                        time.sleep(0.05)
+                        continue
                     p = read_pid(s.pidfile + ".2")
                     if p and p not in masters.values() and rp.proc_state(p) not in (None, "Z"):
                         if newname and not alive(newname):
@@ -195,8 +215,8 @@ def run_history(hist, bind, stopsig, wk="sync"):
             ev.append(checkpoint())
         stop.set()
         [t.join(6) for t in ths]
-        tr = {"unix": bind == "unix", "ev": ev}
-        return tr, {"hist": hist, "bind": bind, "sig": int(stopsig), "complete": counters["complete"], "failed": counters["failed"],
+        tr = {"unix": bind == "unix", "nopid": bool(nopid), "ev": ev}
+        return tr, {"hist": hist, "bind": bind, "nopid": bool(nopid), "sig": int(stopsig), "complete": counters["complete"], "failed": counters["failed"],
                     "masters": masters}
     finally:
         stop.set()
@@ -245,11 +265,13 @@ def c14(ctx):
         plan = [(HISTORIES[0], "unix", signal.SIGTERM), (HISTORIES[1], "tcp", signal.SIGQUIT),
                 (HISTORIES[2], "tcp", signal.SIGTERM), (HISTORIES[3], "unix", signal.SIGTERM),
                 (HISTORIES[4], "tcp", signal.SIGTERM), (HISTORIES[8], "unix", signal.SIGTERM),
-                (HISTORIES[9], "tcp", signal.SIGTERM), (HISTORIES[10], "unix", signal.SIGTERM)]
+                (HISTORIES[9], "tcp", signal.SIGTERM), (HISTORIES[10], "unix", signal.SIGTERM),
+                (HISTORIES[4], "unix", signal.SIGTERM, True), (HISTORIES[3], "tcp", signal.SIGQUIT, True)]
     else:
         plan = [(h, b, sg) for h in HISTORIES for b in ("tcp", "unix") for sg in (signal.SIGTERM, signal.SIGQUIT)]
+        plan += [(HISTORIES[k], b, signal.SIGTERM, True) for k in (0, 1, 3, 4, 6, 7) for b in ("tcp", "unix")]
     from props.reload_real import _parallel
-    results = _parallel(plan, lambda a, i: run_history(a[0], a[1], a[2], wk=rng.choice(["sync", "gthread"])), par=8)
+    results = _parallel(plan, lambda a, i: run_history(a[0], a[1], a[2], wk=rng.choice(["sync", "gthread"]), nopid=len(a) > 3 and a[3]), par=10)
     ctx.coverage["real_process_histories"] = len(results)
     for unix in (True, False):
         sel = [(t, m) for t, m in results if t["unix"] == unix]
@@ -266,7 +288,7 @@ def c14(ctx):
                 ctx.note_drift("Upgrade model not followed at step %d: hist=%s bind=%s events=%s" % (step, m["hist"], m["bind"], t["ev"]))
                 continue
             ops = "+".join("%s:%s" % (o, x) for o, x in m["hist"][:max(1, step // 2)])
-            ctx.violation("C14/%s/bind=%s/%s" % (v, m["bind"], ops), "%s: %s events=%s" % (v, m, t["ev"]), {"trace": t, "meta": m})
+            ctx.violation("C14/%s/bind=%s%s/%s" % (v, m["bind"], ",no-pidfile" if m.get("nopid") else "", ops), "%s: %s events=%s" % (v, m, t["ev"]), {"trace": t, "meta": m})
     for t, m in results[:2]:
         ctx.sample({"history": m["hist"], "bind": m["bind"], "requests_completed": m["complete"], "events": t["ev"]})
     ctx.assumptions += ["real two-master runs: checkpoints taken 0.8 s after USR2 and 1.6 s after a stop (main-loop period 1 s)",
@@ -275,7 +297,7 @@ def c14(ctx):
 
 def replay(ctx, data):
     m = data["case"]["meta"]
-    t, m2 = run_history([tuple(x) for x in m["hist"]], m["bind"], m["sig"])
+    t, m2 = run_history([tuple(x) for x in m["hist"]], m["bind"], m["sig"], nopid=bool(m.get("nopid")))
     print(json.dumps(t))
     verdicts, _ = tlc.validate_batch("UpgradeTrace", up_cfg("trace_replay", t["unix"], trace=True), [t], name="UpgradeTrace_replay")
     print("verdict:", verdicts[0])
